@@ -158,12 +158,12 @@ theorem stepU {env : Env} {file : AFile} {G : List String} {P : Prog} {F : GFile
         (.ret (some (.var (gid retName) (goTy g.ret)))) (.ok (D ++ (gid retName, gv) :: goBind g.params gvs, .ret gv) gw') :=
       stmt_ret (ev_var_some hlk)
     have hblock := block_cons hvd (block_append hb (block_cons_sig (rest := []) (by simp) hr))
-    exact ⟨gv, gw', call_func_env hfind rfl hblock rfl, h3, h4, h5⟩
+    exact ⟨gv, gw', call_func_env hfind rfl hblock rfl (by simp [hlen.2]), h3, h4, h5⟩
   | fail fl w' =>
     cases fl with
     | panic k =>
       rintro ⟨gw', hb, h5⟩
-      exact ⟨gw', call_func_env hfind rfl (block_cons hvd (block_append_panic hb)) rfl, h5⟩
+      exact ⟨gw', call_func_env hfind rfl (block_cons hvd (block_append_panic hb)) rfl (by simp [hlen.2]), h5⟩
     | fuel => intro _; trivial
     | stuck s => intro _; trivial
 
